@@ -1726,7 +1726,12 @@ func (v *VMValue) FuncInvokeRaw(ctx *Context, params []*VMValue, useUpCtxLocal b
 	if cd.code == nil {
 		// Parse 会把算力计数清零；这里要保留调用链上已经累计的算力，否则递归永远不会触发上限
 		usedOps := vm.NumOpCount
-		if err := vm.Parse(cd.Expr); err == nil {
+		if cd.Name != "" && strings.TrimSpace(cd.Expr) == "" {
+			// 函数体为空(func f() {})是合法的：什么也不做，返回 null。
+			// 反序列化得到的空函数体不能当作"输入为空"的语法错误
+			vm.code, vm.codeIndex = []ByteCode{}, 0
+			vm.parser = &parser{data: []byte(cd.Expr)}
+		} else if err := vm.Parse(cd.Expr); err == nil {
 			vm.NumOpCount = usedOps
 			vm.dropTrailingHalt()
 			_ = vm.RunAfterParsed()
